@@ -33,8 +33,12 @@ pub struct SyntaxNode<S: Syntax, D: 'static = ()> {
     data: NonNull<NodeData<S, D>>,
 }
 
-unsafe impl<S: Syntax, D: 'static> Send for SyntaxNode<S, D> {}
-unsafe impl<S: Syntax, D: 'static> Sync for SyntaxNode<S, D> {}
+// Safety: the tree's reference count and slots are synchronized. The custom node data is shared between all
+// threads that can reach the tree (through `Arc<D>`s handed out by `get_data`) and is dropped by whichever
+// thread drops the last handle, so it must be `Send + Sync`. The same holds for the resolver, which is ensured
+// by the bounds on `new_root_with_resolver`, the only place where a resolver is attached to a tree.
+unsafe impl<S: Syntax, D: 'static + Send + Sync> Send for SyntaxNode<S, D> {}
+unsafe impl<S: Syntax, D: 'static + Send + Sync> Sync for SyntaxNode<S, D> {}
 
 impl<S: Syntax, D> SyntaxNode<S, D> {
     /// Writes this node's [`Debug`](fmt::Debug) representation into the given `target`.
@@ -348,7 +352,10 @@ impl<S: Syntax, D> SyntaxNode<S, D> {
     /// assert_eq!(root.text(), "content");
     /// ```
     #[inline]
-    pub fn new_root_with_resolver(green: GreenNode, resolver: impl Resolver<TokenKey> + 'static) -> ResolvedNode<S, D> {
+    pub fn new_root_with_resolver(
+        green: GreenNode,
+        resolver: impl Resolver<TokenKey> + Send + Sync + 'static,
+    ) -> ResolvedNode<S, D> {
         let ptr: StdArc<dyn Resolver<TokenKey>> = StdArc::new(resolver);
         ResolvedNode {
             syntax: SyntaxNode::make_new_root(green, Some(ptr)),
